@@ -58,12 +58,12 @@ func c08Run(c *vf.Ctx, sub string, explicit, lastKnown bool) {
 	if !c.Active(sub) {
 		return
 	}
-	n := c.N(150, 3000)
+	n := c.N(150, 8000)
 	if explicit {
-		n = c.N(80, 1200)
+		n = c.N(80, 4000)
 	}
 	if lastKnown {
-		n = c.N(60, 800)
+		n = c.N(60, 2500)
 	}
 	ids := allIdents()
 	for i := 0; i < n; i++ {
